@@ -4,6 +4,9 @@ import RbV.Ref.SAUnique
 import RbV.Model.Kasai
 import RbV.Model.Sus
 import RbV.Model.Transform
+import RbV.Model.SampledSA
+import RbV.Model.LFMulti
+import RbV.Model.PosTypes
 /-!
 # C03 — suffix array = sorted permutation of all suffixes; LCP; shortest unique substrings
 
@@ -154,5 +157,62 @@ theorem susRef_spec_none (t : List Nat) (p : Nat) (h : susRef t p = none) :
 
 example : (List.range 8).map (susRef [71, 67, 84, 71, 67, 84, 65, 36]) =
     [some 4, some 3, some 2, some 4, some 3, some 2, some 1, some 1] := by decide
+
+
+/-- **Mirror model of `SampledSuffixArray::get` is exact** (texts whose last symbol is their unique smallest
+symbol): for every sampling rate `s ≥ 1`, every Occ sampling rate `k ≥ 1` and every row `i`, the LF walk to the next
+sampled row (with the cached row for the BWT sentinel), run on the mirror models of `less()`, `Occ::new` and
+`Occ::get`, returns `sa[i]`.  Rests on the LF-mapping lemma (`RbV/Model/LFMap.lean`). -/
+theorem sampled_get_exact (t sa : List Nat) (s k m : Nat)
+    (hperm : sa.Perm (List.range t.length))
+    (hsorted : sa.Pairwise (fun i j => lexLt (t.drop i) (t.drop j)))
+    (hhead : sa.head? = some (t.length - 1))
+    (hpos : 0 < t.length)
+    (hmin : ∀ p, p < t.length → t.getD (t.length - 1) 0 ≤ t.getD p 0)
+    (huniq : ∀ p, p < t.length → t.getD p 0 = t.getD (t.length - 1) 0 → p = t.length - 1)
+    (hs : 0 < s) (hk : 0 < k) (hm : ∀ x ∈ t, x < m) (i : Nat) (hi : i < t.length) :
+    Sampled.sampledGet (bwtRef t sa) sa s (t.getD (t.length - 1) 0) (OccM.lessModel (bwtRef t sa) m)
+      (fun r c => OccM.occGet (OccM.occNewLoop (bwtRef t sa) k c) (bwtRef t sa) k r c) i = some (sa.getD i 0) :=
+  Sampled.sampled_get_correct_models t sa ⟨hperm, hsorted, hhead⟩ ⟨hpos, hmin, huniq⟩ s k hs hk m hm i hi
+
+example : (List.range 6).map (Sampled.sampledGet (bwtRef [99, 97, 98, 99, 97, 36] [5, 4, 1, 2, 3, 0])
+      [5, 4, 1, 2, 3, 0] 4 36 (OccM.lessModel (bwtRef [99, 97, 98, 99, 97, 36] [5, 4, 1, 2, 3, 0]) 101)
+      (fun r c => OccM.occGet (OccM.occNewLoop (bwtRef [99, 97, 98, 99, 97, 36] [5, 4, 1, 2, 3, 0]) 3 c)
+        (bwtRef [99, 97, 98, 99, 97, 36] [5, 4, 1, 2, 3, 0]) 3 r c))
+    = [some 5, some 4, some 1, some 2, some 3, some 0] := by decide
+
+
+/-- **… and for every text of the property's quantifier** (any number of sentinel occurrences, the sentinel being
+the smallest symbol): for every array accepted by `checkSA`, `get(i) = sa[i]` at every row, for every sampling rate
+and every Occ rate.  The LF step is exact for every row whose BWT symbol is not the sentinel
+(`LFMulti.lf_mapping_multi`); the other rows are answered from `extra_rows`. -/
+theorem sampled_get_exact_all (t sa : List Nat) (s k m : Nat) (hc : checkSA t sa = true)
+    (hmin : ∀ p, p < t.length → sentinelOf t ≤ t.getD p 0)
+    (hs : 0 < s) (hk : 0 < k) (hm : ∀ x ∈ t, x < m) (i : Nat) (hi : i < t.length) :
+    Sampled.sampledGet (bwtRef t sa) sa s (sentinelOf t) (OccM.lessModel (bwtRef t sa) m)
+      (fun r c => OccM.occGet (OccM.occNewLoop (bwtRef t sa) k c) (bwtRef t sa) k r c) i = some (sa.getD i 0) :=
+  LFMulti.sampled_get_correct_multi t sa hc hmin s k hs hk m hm i hi
+
+
+/-- **SA-IS, proved fragment** (`…_partial`).  Full statement that is NOT proved here (SA-IS is covered by the
+sound-and-complete acceptance function `checkSA` on every run instead of by a model):
+
+    `saisModel ks = the unique sa with SuffixSorted ks sa`   for every dense integer text `ks` ending in a unique minimum,
+
+where `saisModel` mirrors `Sais::construct` (L/S typing, LMS naming, recursion on the reduced text, induced sorting).
+Proved: the first mechanism, `PosTypes::new` — in a text whose last symbol occurs nowhere else, a position is typed
+S exactly when its suffix is smaller than the next suffix (and the last position is S).  Together with
+`transform_sorted_isSA` (the integer text handed to SA-IS has the right order) this frames SA-IS from both sides. -/
+theorem sais_postypes_partial (ks : List Nat)
+    (hu : ∀ i, i + 1 < ks.length → ks.getD i 0 ≠ ks.getD (ks.length - 1) 0) (p : Nat) (hp : p < ks.length) :
+    (PosTypes.posTypes ks)[p]? =
+      some (decide (lexLt (ks.drop p) (ks.drop (p + 1))) || decide (p + 1 = ks.length)) :=
+  PosTypes.posTypes_spec ks hu p hp
+
+-- the LMS positions of the text pinned in the repo's `test_pos_types`
+example :
+    let ty := PosTypes.posTypes [71, 67, 67, 84, 84, 65, 65, 67, 65, 84, 84, 65, 84, 84, 65, 67, 71, 67, 67, 84, 65, 36]
+    (List.range 22).filter (fun p => p ≠ 0 && ty.getD p false && !ty.getD (p - 1) true) = [1, 5, 8, 11, 14, 17, 21] := by
+  decide
 
 end RbV.Thm.C03
